@@ -118,6 +118,14 @@ Fixpoint nodup_nat (l : list nat) : bool :=
 (* ---------------- property predicates on the implementation's own observations ---------------- *)
 (* A put is "acked" when the reply is a ping response. Using only impl observations: the request,
    its reply, the dumps before and after, and the token oracle below. *)
+(* entries of `before` that are gone in `after`: none, or exactly the last (least recently used) one *)
+Definition evicted_is_last {A} (same : A -> A -> bool) (before after : list A) : bool :=
+  match filter (fun e => negb (existsb (same e) after)) before with
+  | [] => true
+  | [x] => match rev before with y :: _ => same x y | [] => false end
+  | _ => false
+  end.
+
 Definition dump_contents_eq (a b : cdump) : bool :=
   (* same contents regardless of recency order: compare as multisets via mutual inclusion of printed entries *)
   let incl {A} (eqb : A -> A -> bool) (x y : list A) := forallb (fun e => existsb (eqb e) y) x in
@@ -181,6 +189,10 @@ Definition step_pb (p : pool) (before after : cdump) (s : sstep) : bool :=
           | CImm target v =>
               (length (pget p v) <=? 1000)%nat && validate_immutable (pget p v) (pget p target)
               && existsb (fun e => Nat.eqb (fst e) target && Nat.eqb (snd e) v) (d_imm after)
+              (* least-recently-used discipline (C20): what was just written is the most recently used entry
+                 (dumps list the most recently used entry first), and only the least recently used one can go *)
+              && match d_imm after with e :: _ => Nat.eqb (fst e) target | [] => false end
+              && evicted_is_last (fun a b : nat * nat => Nat.eqb (fst a) (fst b)) (d_imm before) (d_imm after)
           | CMut target v k seq sig salt cas =>
               q_vok s && (length (pget p v) <=? 1000)%nat
               && match salt with Some sl => (length (pget p sl) <=? 64)%nat | None => true end
@@ -193,6 +205,8 @@ Definition step_pb (p : pool) (before after : cdump) (s : sstep) : bool :=
                  | Some (_, (k', sq', v', sg', _)) => Nat.eqb k' k && (sq' =? seq)%Z && Nat.eqb v' v && Nat.eqb sg' sig
                  | None => false
                  end
+              && match d_mut after with e :: _ => Nat.eqb (fst e) target | [] => false end
+              && evicted_is_last (fun a b : nat * (nat * Z * nat * nat * option nat) => Nat.eqb (fst a) (fst b)) (d_mut before) (d_mut after)
           end
       | _ => false
       end
@@ -200,6 +214,7 @@ Definition step_pb (p : pool) (before after : cdump) (s : sstep) : bool :=
       dump_contents_eq before after &&
       match q_reply s with
       | YGetImm _ _ v _ => match seq with None => existsb (fun e => Nat.eqb (fst e) target && Nat.eqb (snd e) v) (d_imm before) | Some _ => false end
+                           && match d_imm after with e :: _ => Nat.eqb (fst e) target | [] => false end
       | YGetMut _ _ v k sq sg _ =>
           match find_mut before target with
           | Some (_, (k', sq', v', sg', _)) =>
